@@ -59,7 +59,9 @@ type fakeConn struct{ db *fakeDB }
 
 func (c *fakeConn) Prepare(q string) (driver.Stmt, error) { return &fakeStmt{c.db, q}, nil }
 func (c *fakeConn) Close() error                          { return nil }
-func (c *fakeConn) Begin() (driver.Tx, error)             { return c.BeginTx(context.Background(), driver.TxOptions{}) }
+func (c *fakeConn) Begin() (driver.Tx, error) {
+	return c.BeginTx(context.Background(), driver.TxOptions{})
+}
 func (c *fakeConn) BeginTx(ctx context.Context, o driver.TxOptions) (driver.Tx, error) {
 	if c.db.failBegin {
 		c.db.events = append(c.db.events, "begin-failed")
@@ -142,7 +144,7 @@ func drawC18(rt *rapid.T) interface{} {
 	n := rapid.IntRange(0, 5).Draw(rt, "nsteps")
 	for i := 0; i < n; i++ {
 		sc.Steps = append(sc.Steps, step{
-			Kind:  rapid.SampledFrom([]string{"ok", "ok", "ok", "exec", "exec", "err", "panic"}).Draw(rt, "kind"),
+			Kind:  rapid.SampledFrom([]string{"ok", "ok", "ok", "exec", "exec", "err", "panic", "panic", "panicnil", "panicerr"}).Draw(rt, "kind"),
 			Group: rapid.SampledFrom([]int{0, 0, 1, 2}).Draw(rt, "group"),
 		})
 	}
@@ -185,6 +187,11 @@ func runC18(t *testing.T, sci interface{}, keepLog bool) *hx.Outcome {
 				return e
 			case "panic":
 				panic(fmt.Sprintf("step %d blew up", i))
+			case "panicnil":
+				var nothing interface{}
+				panic(nothing) // a panic all the same (recover() returns nil for it under the repository's go 1.19 language level)
+			case "panicerr":
+				panic(fmt.Errorf("step %d blew up", i))
 			case "exec":
 				if e := txn.Exec("UPDATE t SET a = ? WHERE id = ?", i, 1).Error; e != nil {
 					stepErrs[i] = e
@@ -243,7 +250,7 @@ func runC18(t *testing.T, sci interface{}, keepLog bool) *hx.Outcome {
 	firstFail := -1 // index of the first step that fails (error, panic, failing exec)
 	execN := 0
 	for i, s := range sc.Steps {
-		bad := s.Kind == "err" || s.Kind == "panic"
+		bad := s.Kind == "err" || strings.HasPrefix(s.Kind, "panic")
 		if s.Kind == "exec" {
 			execN++
 			if sc.FailExecAt == execN {
@@ -313,7 +320,9 @@ func runC18(t *testing.T, sci interface{}, keepLog bool) *hx.Outcome {
 			}
 			if ret == nil {
 				fail("step-failure-swallowed", "step %d failed (%s) but Transact returned nil", firstFail, sc.Steps[firstFail].Kind)
-			} else if sc.Steps[firstFail].Kind == "panic" {
+			} else if sc.Steps[firstFail].Kind == "panicnil" {
+				// any error will do: there is no panic value to describe
+			} else if strings.HasPrefix(sc.Steps[firstFail].Kind, "panic") {
 				if !strings.Contains(ret.Error(), fmt.Sprintf("step %d blew up", firstFail)) {
 					fail("wrong-error-returned", "step %d panicked, the returned error does not describe the panic: %v", firstFail, ret)
 				}
